@@ -32,6 +32,58 @@ pub fn prints_short(f: f64) -> bool {
     match literal_parts(&t) { Some((w, q)) => w < 1_000_000_000_000_000 && (-22..=22).contains(&q), None => false }
 }
 
+/// (significant digits, scientific exponent) of a printed literal: digits with leading and trailing zeros dropped,
+/// exponent of the first significant digit (`8000000000000020.0` = (15, 15), `7.40865532228085e-9` = (15, -9))
+pub fn sci_shape(t: &str) -> Option<(usize, i64)> {
+    let (w, q) = literal_parts_wide(t)?;
+    if w == 0 { return Some((1, 0)); }
+    let (mut k, mut z) = (w, 0i64);
+    while k % 10 == 0 { k /= 10; z += 1; }
+    let nd = k.to_string().len();
+    Some((nd, q + z + nd as i64 - 1))
+}
+
+/// like `literal_parts` but with the digit string read into a u128 (up to 38 written digits)
+fn literal_parts_wide(t: &str) -> Option<(u128, i64)> {
+    let s = t.strip_prefix('-').unwrap_or(t);
+    let (mant, exp) = match s.find(|c| c == 'e' || c == 'E') { Some(i) => (&s[..i], s[i + 1..].parse::<i64>().ok()?), None => (s, 0) };
+    let (int, frac) = match mant.find('.') { Some(i) => (&mant[..i], &mant[i + 1..]), None => (mant, "") };
+    let digits = format!("{}{}", int, frac);
+    if digits.len() > 38 { return None; }
+    Some((digits.parse::<u128>().ok()?, exp - frac.len() as i64))
+}
+
+/// op `rtsci <hex printed text> <B original bits> => B<bits read back> | E…`: default build only. f64 values whose printed form is
+/// short in the statement's plain reading (at most 15 significant digits, scientific exponent within +-22) but lies OUTSIDE
+/// C08's exact window (written digits < 10^15 and net exponent within +-22) - the round trip is not exact there
+fn emit_rtsci(sink: &mut Sink, x: f64, gen: &str) {
+    let t = match catch_unwind(|| serde_json::to_string(&x)) { Ok(Ok(t)) => t, _ => return };
+    let o = match catch_unwind(|| serde_json::from_str::<f64>(&t)) {
+        Ok(Ok(f)) => format!("B{:016x}", f.to_bits()), Ok(Err(e)) => format!("E{}", hex(e.to_string().as_bytes())), Err(_) => "Xpanic".into() };
+    let same = o == format!("B{:016x}", x.to_bits());
+    sink.case("rtsci", &[&hex(t.as_bytes()), &format!("B{:016x}", x.to_bits())], &o, &format!("rtsci:{}:{}", gen, if same { "same" } else { "differs" }), true);
+}
+
+fn run_rtsci(sink: &mut Sink, thorough: bool, r: &mut Rng) {
+    for x in [8000000000000020.0f64, 7.40865532228085e-9, -8000000000000020.0, 9007199254740993e0, 1.23456789012345e-10] {
+        let t = serde_json::to_string(&x).unwrap();
+        if let Some((nd, e)) = sci_shape(&t) { if nd <= 15 && (-22..=22).contains(&e) && !prints_short(x) { emit_rtsci(sink, x, "fixed"); } }
+    }
+    let n = if thorough { 60000 } else { 6000 };
+    let mut made = 0;
+    for _ in 0..n * 8 {
+        if made >= n { break; }
+        let nd = 1 + r.below(15) as i64;
+        let mut k: u64 = 0;
+        for i in 0..nd { k = k * 10 + if i == 0 || i == nd - 1 { 1 + r.below(9) as u64 } else { r.below(10) as u64 }; }
+        let e = r.below(45) as i64 - 22;
+        let x: f64 = format!("{}e{}", k, e - (nd - 1)).parse().unwrap();
+        let x = if r.chance(1, 2) { -x } else { x };
+        let t = match serde_json::to_string(&x) { Ok(t) => t, Err(_) => continue };
+        match sci_shape(&t) { Some((d, se)) if d <= 15 && (-22..=22).contains(&se) && !prints_short(x) => { emit_rtsci(sink, x, "rand"); made += 1; } _ => {} }
+    }
+}
+
 /// k·10^e with k < 10^15 (1–15 digits), |e| ≤ 22, either sign; kept only if it prints as a short literal
 pub fn gen_f64_short(r: &mut Rng) -> f64 {
     const FIXED: &[f64] = &[0.0, -0.0, 1.0, -1.0, 0.5, 1.5, 0.1, 0.3, 4.35, 1e22, 1e-22, 123456789.125, 1e15, 1e-7, 2.5e-8, 999999999999999.0,
@@ -299,6 +351,9 @@ pub fn replay(sink: &mut Sink, toks: &[&str]) {
             let o = obs_rtv(&v, &[1]);
             sink.case("rtv", &[&cfg, &enc(&v), &float_table(&v)], &o, "replay", true);
         }
+        "rtsci" if toks.len() >= 3 => {
+            if let Ok(b) = u64::from_str_radix(toks[2].trim_start_matches('B'), 16) { emit_rtsci(sink, f64::from_bits(b), "replay"); }
+        }
         "rtt" if toks.len() >= 4 => crate::c04t::replay(sink, &cfg, toks[2], toks[3].parse().unwrap_or(0)),
         _ => eprintln!("cannot replay {:?}", toks),
     }
@@ -336,5 +391,6 @@ pub fn run(sink: &mut Sink, thorough: bool, seed: u64) {
         let v = nested(&mut r, n, k % 4, v0);
         if depth(&v) <= 127 { emit_rtv(sink, &cfg, &v, &mut r, "deep"); }
     }
+    if !cfg!(feature = "fr") && !cfg!(feature = "ap") { run_rtsci(sink, thorough, &mut r); }
     crate::c04t::run(sink, thorough, &mut r, &cfg);
 }
